@@ -42,6 +42,15 @@ def const_value(rng, kind, ccls, dyadic):
         return 0
     if ccls == "one":
         return 1
+    if ccls in ("tiny", "huge"):
+        # non-zero constants far below machine epsilon / far above 2**53 (physical constants, unit changes)
+        if kind in ("int", "npi"):
+            v = rng.choice([10 ** 16, 10 ** 18, 2 ** 62]) if ccls == "huge" else 1
+        elif ccls == "tiny":
+            v = rng.choice([1e-20, 2.0 ** -60, 1.380649e-23, 1.602176634e-19, 3e-17, 2.0 ** -53])
+        else:
+            v = rng.choice([1e18, 2.0 ** 70, 3e16, 6.02214076e23, 2.0 ** 53 + 2])
+        return -v if rng.random() < 0.3 else v
     if kind in ("int", "npi"):
         v = rng.choice([2, 3, 4, 5, 7, 8, 16])
     elif dyadic:
@@ -100,13 +109,82 @@ def distinct_steps_box(rng, sign):
     return l, r
 
 
+THIN = ("thin-rel", "thin-rel-neg", "thin-abs", "thin-abs-neg", "thin-str", "thin-big")
+
+
+def thin_box(rng, mode):
+    """thin but NOT degenerate float boxes: relative width 1e-9..1e-5, or tiny absolute magnitudes
+    (everything numpy.allclose / isclose would call equal), plateaus and distinct steps mixed"""
+    k = rng.choice([1, 3, 10, N])
+    if mode in ("thin-rel", "thin-rel-neg", "thin-big"):
+        lo_, hi_ = (1.0, 600.0) if mode != "thin-big" else (1e6, 1e9)
+        base = sorted(rng.uniform(lo_, hi_) for _ in range(k))
+        rel = rng.choice([1e-9, 1e-7, 1e-6, 5e-6, 9e-6])
+        l = [base[(i * k) // N] for i in range(N)]
+        r = [x * (1.0 + rel) for x in l]
+    elif mode in ("thin-abs", "thin-abs-neg"):
+        base = sorted(rng.uniform(2e-9, 5e-9) for _ in range(k))
+        l = [base[(i * k) // N] for i in range(N)]
+        w = rng.choice([1e-9, 3e-9, 4e-10])
+        r = [x + w for x in l]
+    else:  # thin-str: a sliver around zero
+        base = sorted(rng.uniform(-3e-9, 3e-9) for _ in range(k))
+        l = [base[(i * k) // N] for i in range(N)]
+        r = [x + 2e-9 for x in l]
+        if not (min(l) < 0 < max(r)):
+            l = [x - 4e-9 for x in l[: N // 2]] + l[N // 2:]
+            l.sort()
+    if mode.endswith("-neg"):
+        l, r = [-x for x in reversed(r)], [-x for x in reversed(l)]
+    assert all(a < b for a, b in zip(l, r)) and l == sorted(l) and r == sorted(r)
+    return l, r
+
+
+REPRS = ("intarr", "intlist", "intderived", "floatlist")
+
+
+def build_operand(c):
+    """the p-box operand in the representation the case asks for (theme: integer dtypes, lists)"""
+    S = pbx.Staircase()
+    l, r = c["box"]
+    rp = c.get("repr", "float")
+    if rp == "float":
+        return pbx.stair(l, r)
+    if rp == "floatlist":
+        return S(left=[float(x) for x in l], right=[float(x) for x in r])
+    if rp == "intarr":
+        return S(left=np.array(l, dtype=np.int64), right=np.array(r, dtype=np.int64))
+    if rp == "intlist":
+        return S(left=[int(x) for x in l], right=[int(x) for x in r])
+    if rp == "intderived":   # integer arithmetic keeps the integer dtype
+        K = S(left=np.array([x - 1 for x in l], dtype=np.int64), right=np.array([x - 1 for x in r], dtype=np.int64))
+        return K + 1
+    if rp == "minmax":
+        from pyuncertainnumber import pba
+        return pba.min_max(int(l[0]), int(r[0]))
+    raise ValueError(rp)
+
+
+def operand_intact(c, P):
+    l, r = c["box"]
+    try:
+        pl, pr = np.asarray(P.left), np.asarray(P.right)
+        return len(pl) == len(l) and len(pr) == len(r) and bool(np.all(pl == np.array(l, dtype=float))) \
+            and bool(np.all(pr == np.array(r, dtype=float)))
+    except Exception:
+        return False
+
+
 # ---- the real code --------------------------------------------------------------------------------
-def run_impl(c):
+def run_impl(c, keep=None):
+    """canonical result of the real call; `keep` (a dict) receives the live result and operand objects"""
     import warnings
     try:
         with warnings.catch_warnings():
             warnings.simplefilter("ignore")
-            P = pbx.stair(*c["box"])
+            P = build_operand(c)
+            if keep is not None:
+                keep["operand"] = P
             k = c["k"]
             if k == "num":
                 cv = mkconst(c["ckind"], c["c"])
@@ -120,9 +198,11 @@ def run_impl(c):
             elif k == "un":
                 r = getattr(np, c["f"])(P) if c.get("via") == "ufunc" else getattr(P, c["f"])()
             elif k == "pow":
-                r = P ** mkconst(c["ckind"], c["c"])
+                r = P.pow(mkconst(c["ckind"], c["c"])) if c.get("via") == "method" else P ** mkconst(c["ckind"], c["c"])
             else:
                 raise ValueError(k)
+        if keep is not None:
+            keep["result"] = r
         if not hasattr(r, "left"):
             return ("notbox", type(r).__name__)
         return pbx.canon_pb(r)
@@ -180,7 +260,7 @@ def in_domain(c):
     if k == "recip":
         return excludes_zero(l, r)
     if k == "un":
-        return {"exp": True, "log": min(l) > 0, "sqrt": min(l) >= 0}[c["f"]]
+        return {"exp": max(r) < 700, "log": min(l) > 0, "sqrt": min(l) >= 0}[c["f"]]   # exp(x) is finite in binary64 for x < 709
     if k == "pow":
         if c["ckind"] in ("int", "npi"):
             return c["c"] >= 1
@@ -288,9 +368,90 @@ def roundtrip_bad(c, res):
 
 # ---- cases ----------------------------------------------------------------------------------------
 def new_case(k, box, intbox=True, **kw):
-    d = {"k": k, "box": (list(box[0]), list(box[1])), "intbox": intbox}
+    d = {"k": k, "box": (list(box[0]), list(box[1])), "intbox": intbox, "repr": "float"}
     d.update(kw)
     return d
+
+
+def extra_cases(ctx):
+    """round-3 streams: operand representation, thin-but-not-degenerate boxes, extreme constants"""
+    rng = ctx.rng
+    cases = []
+    ccls_all = ("neg", "m1", "zero", "one", "pos")
+    # (D) extreme constants: every op x order x float kind x {tiny, huge}, integer kinds for huge
+    for cc in ("tiny", "huge"):
+        for op in OPS:
+            for order in ("num", "rnum"):
+                for kind in KINDS:
+                    if cc == "tiny" and kind in ("int", "npi"):
+                        continue
+                    bc = rng.choice(["pos", "neg"]) if (order == "rnum" and op == "div") else rng.choice(["pos", "neg", "str", "interval"])
+                    box = make_box(rng, bc) if rng.random() < 0.6 else distinct_steps_box(rng, bc if bc in ("pos", "neg", "str") else "pos")
+                    cases.append(new_case(order, box, op=op, ckind=kind, c=const_value(rng, kind, cc, True), ccls=cc,
+                                          bcls=bc, stream="extreme", via=rng.choice(["bare", "method"])))
+    for _ in range(ctx.scale(30, 1500)):
+        order, op, kind, cc = rng.choice(["num", "rnum"]), rng.choice(["mul", "mul", "div", "add", "sub"]), rng.choice(["float", "npf"]), rng.choice(["tiny", "huge"])
+        sg = rng.choice(["pos", "neg"]) if (order == "rnum" and op == "div") else rng.choice(["pos", "neg", "str"])
+        l, r, kd = pbx.lib_box200(rng, sg)
+        cases.append(new_case(order, (l, r), intbox=False, op=op, ckind=kind, c=const_value(rng, kind, cc, True), ccls=cc,
+                              bcls="lib-" + kd, stream="extreme", via="bare"))
+    # (B) integer-dtype / list operands through every call
+    for rp in REPRS:
+        for bc in ("pos", "neg"):
+            mk_ = lambda: (make_box(rng, bc) if rng.random() < 0.5 else distinct_steps_box(rng, bc))
+            cases.append(new_case("recip", mk_(), repr=rp, bcls=bc, stream="repr", via="method"))
+            cases.append(new_case("recip", mk_(), repr=rp, bcls=bc, stream="repr", via="ufunc"))
+            cases.append(new_case("neg", mk_(), repr=rp, bcls=bc, stream="repr"))
+            for kind, cv in (("int", 6), ("float", 2.5), ("npf", -2.5), ("npi", -3), ("int", 1)):
+                cases.append(new_case("rnum", mk_(), repr=rp, op="div", ckind=kind, c=cv, ccls="pos" if cv > 0 else "neg",
+                                      bcls=bc, stream="repr", via="bare"))
+            for op in OPS:
+                kind = rng.choice(KINDS)
+                cc = rng.choice(["neg", "pos", "m1"])
+                cases.append(new_case("num", mk_(), repr=rp, op=op, ckind=kind, c=const_value(rng, kind, cc, True), ccls=cc,
+                                      bcls=bc, stream="repr", via=rng.choice(["bare", "method"])))
+                if op != "div":
+                    cases.append(new_case("rnum", mk_(), repr=rp, op=op, ckind=kind, c=const_value(rng, kind, cc, True), ccls=cc,
+                                          bcls=bc, stream="repr", via="bare"))
+        for f in UNARY:
+            cases.append(new_case("un", make_box(rng, "pos"), repr=rp, f=f, bcls="pos", stream="repr", via=rng.choice(["method", "ufunc"])))
+        for kind, cv in (("int", 2), ("npi", 3), ("float", 0.5), ("npf", 2.0)):
+            bc = "pos" if kind in ("float", "npf") else rng.choice(["pos", "neg", "str"])
+            cases.append(new_case("pow", make_box(rng, bc), repr=rp, ckind=kind, c=cv, bcls=bc, stream="repr", via=rng.choice(["bare", "method"])))
+    # integer-dtype bounds times an integer beyond 2**63 / |bound|: int64 wrap-around (open finding KF-C06-int-dtype-overflow)
+    for rp, kind in (("intarr", "int"), ("intlist", "npi"), ("intderived", "int"), ("minmax", "npi")):
+        box = ([2] * N, [50] * N) if rp == "minmax" else distinct_steps_box(rng, "pos")
+        for order in ("num", "rnum"):
+            cases.append(new_case(order, box, repr=rp, op="mul", ckind=kind, c=10 ** 18, ccls="huge", bcls="int-overflow",
+                                  stream="repr", via="bare", notie=True))
+    for a, b in ((2, 5), (-7, -3), (-2, 3)):
+        box = ([a] * N, [b] * N)
+        cases.append(new_case("num", box, repr="minmax", op="mul", ckind="float", c=-0.5, ccls="neg", bcls="minmax", stream="repr", via="bare"))
+        cases.append(new_case("neg", box, repr="minmax", bcls="minmax", stream="repr"))
+        if a * b > 0:
+            cases.append(new_case("recip", box, repr="minmax", bcls="minmax", stream="repr", via="method"))
+            cases.append(new_case("rnum", box, repr="minmax", op="div", ckind="int", c=6, ccls="pos", bcls="minmax", stream="repr", via="bare"))
+    # (C) thin but not degenerate boxes through every call
+    for f in UNARY:
+        for md in THIN:
+            if f == "exp" and md == "thin-big":
+                continue   # overflows binary64
+            for via in ("method", "ufunc"):
+                cases.append(new_case("un", thin_box(rng, md), intbox=False, f=f, bcls=md, stream="thin", via=via))
+    for md in THIN:
+        cases.append(new_case("neg", thin_box(rng, md), intbox=False, bcls=md, stream="thin"))
+        cases.append(new_case("recip", thin_box(rng, md), intbox=False, bcls=md, stream="thin", via=rng.choice(["method", "ufunc"])))
+        for kind, cv in (("int", 2), ("npi", 3), ("float", 0.5), ("npf", 1.5)):
+            if kind in ("float", "npf") and md in ("thin-rel-neg", "thin-abs-neg", "thin-str"):
+                continue   # real powers of negative numbers: outside the domain (nan)
+            cases.append(new_case("pow", thin_box(rng, md), intbox=False, ckind=kind, c=cv, bcls=md, stream="thin", via="bare"))
+        for op in OPS:
+            for order in ("num", "rnum"):
+                kind = rng.choice(KINDS)
+                cc = rng.choice(ccls_all + ("tiny", "huge") if kind in ("float", "npf") else ccls_all)
+                cases.append(new_case(order, thin_box(rng, md), intbox=False, op=op, ckind=kind, c=const_value(rng, kind, cc, False),
+                                      ccls=cc, bcls=md, stream="thin", via="bare"))
+    return cases
 
 
 def gen_cases(ctx):
@@ -395,7 +556,8 @@ def gen_cases(ctx):
             bc = "distinct-" + sg; box, intbox = distinct_steps_box(rng, sg), True
         else:
             l, r, kd = pbx.lib_box200(rng, sg if sg in ("pos", "neg", "str") else "pos"); bc = "lib-" + kd; box, intbox = (l, r), False
-        cases.append(new_case("pow", box, intbox=intbox, ckind=kind, c=cv, bcls=bc, stream="pow"))
+        cases.append(new_case("pow", box, intbox=intbox, ckind=kind, c=cv, bcls=bc, stream="pow", via=rng.choice(["bare", "method"])))
+    cases += extra_cases(ctx)
     return cases
 
 
@@ -424,13 +586,19 @@ def describe(c):
         return "P.reciprocal()" if c.get("via") != "ufunc" else "np.reciprocal(P)"
     if k == "un":
         return f"P.{c['f']}()" if c.get("via") != "ufunc" else f"np.{c['f']}(P)"
-    return f"P ** {c['ckind']}({c['c']})"
+    return f"P ** {c['ckind']}({c['c']})" if c.get("via") != "method" else f"P.pow({c['ckind']}({c['c']}))"
+
+
+def describe_full(c):
+    rp = c.get("repr", "float")
+    return describe(c) + (f" [P stored as {rp}]" if rp != "float" else "") + f" [{c.get('bcls', '')} box]"
 
 
 def features(c):
     l, r = c["box"]
     return {"call": c["k"], "op": c.get("op", c.get("f", c["k"])), "ckind": c.get("ckind", "-"), "ccls": c.get("ccls", "-"),
-            "sign": pbx.sign_class(l, r)[:3], "via": c.get("via", "-"), "stream": c["stream"]}
+            "sign": pbx.sign_class(l, r)[:3], "via": c.get("via", "-"), "stream": c["stream"], "repr": c.get("repr", "float"),
+            "bcls": c.get("bcls", "-")}
 
 
 def trivial(c):
@@ -448,8 +616,8 @@ def trivial(c):
 
 def tie_agrees(c, impl, model, rep):
     """(agrees?, compared?)"""
-    if rep == "unmodelled":
-        return True, False
+    if rep == "unmodelled" or c.get("notie"):
+        return True, False     # (int64 wrap-around of integer-dtype bounds is not modelled)
     if not in_domain(c) and c["k"] in ("recip", "rnum") and any(v == 0 for v in c["box"][0] + c["box"][1]):
         # a zero bound gives inf in numpy, not representable in the model: both must fail to give a finite box
         bad_impl = impl[0] != "ok" or any(not math.isfinite(v) for v in impl[1] + impl[2])
@@ -484,10 +652,14 @@ def identities(c, impl):
     return None
 
 
-def evaluate(ctx, c, rep):
+def evaluate(ctx, c, rep, keep=None):
     """tie + oracle for one case"""
-    impl = run_impl(c)
+    keep = {} if keep is None else keep
+    impl = run_impl(c, keep)
     feat = features(c)
+    if "operand" in keep and not operand_intact(c, keep["operand"]):
+        ctx.fail({**feat, "check": "operand-changed", "symptom": "operand-mutated"}, case_json(c, impl, full=True),
+                 f"{describe_full(c)}: the operand p-box no longer holds the bounds it was built from after the call")
     if rep is not None:
         model = pbx.parse_reply(rep) if rep != "unmodelled" else None
         ok, compared = tie_agrees(c, impl, model, rep)
@@ -497,7 +669,7 @@ def evaluate(ctx, c, rep):
             else:
                 ctx.tie_bad(c["stream"], case_json(c), pbx.js(impl) if impl[0] in ("ok", "err") else list(impl),
                             pbx.js(model) if model and model[0] in ("ok", "err") else rep)
-    what = describe(c)
+    what = describe_full(c)
     cj = lambda extra=None: {**case_json(c, impl, full=True), **(extra or {})}
     # division by the constant zero must be an error, whatever the kind of the zero
     if c["k"] == "num" and c["op"] == "div" and c["c"] == 0:
@@ -549,16 +721,50 @@ def run(ctx: core.Check):
     ctx.lean_stage(["Pun.Lemmas.PBoxNum", "Pun.Props.C06"])
     cases = gen_cases(ctx)
     replies = core.model_batch("C06", [wire(c) for c in cases])
-    for c, rep in zip(cases, replies):
-        key = (c["k"], c.get("op"), c.get("f"), c.get("ckind"), repr(c.get("c")), c.get("via"), tuple(c["box"][0]), tuple(c["box"][1]))
+    alive, pending = [], []   # live result objects of recent cases ; cases scheduled for a second evaluation
+
+    def recheck(final=False):
+        """results handed out earlier must still read the same, and their operands too (shared buffers, caches)"""
+        for a in alive:
+            ctx.bump("alive-rechecked")
+            now = pbx.canon_pb(a["result"])
+            if repr(now) != repr(a["canon"]) or not operand_intact(a["case"], a["operand"]):
+                ctx.fail({**features(a["case"]), "check": "result-changed-later", "symptom": "aliasing"},
+                         case_json(a["case"], a["canon"], full=True),
+                         f"{describe_full(a['case'])}: the result (or operand) object changed after later, unrelated calls")
+        del alive[: (len(alive) if final else max(0, len(alive) - 24))]
+
+    for idx, (c, rep) in enumerate(zip(cases, replies)):
+        key = (c["k"], c.get("op"), c.get("f"), c.get("ckind"), repr(c.get("c")), c.get("via"), c.get("repr"), tuple(c["box"][0]), tuple(c["box"][1]))
         ctx.count(key, not trivial(c), c["stream"])
         ctx.bump("sign:" + pbx.sign_class(*c["box"]))
         if "ckind" in c:
             ctx.bump("kind:" + c["ckind"])
         if not in_domain(c):
             ctx.bump("outside-domain")
-        impl = evaluate(ctx, c, rep)
+        keep = {}
+        impl = evaluate(ctx, c, rep, keep)
+        if impl[0] == "ok" and "result" in keep:
+            alive.append({"case": c, "result": keep["result"], "operand": keep["operand"], "canon": impl})
+        if idx % 7 == 0:
+            pending.append((idx + 5, c, impl))
+        while pending and pending[0][0] <= idx:
+            _, c2, first = pending.pop(0)
+            ctx.bump("evaluated-twice")
+            again = run_impl(c2)
+            if repr(again) != repr(first):
+                ctx.fail({**features(c2), "check": "not-reproducible", "symptom": "state-carried"}, case_json(c2, again, full=True),
+                         f"{describe_full(c2)}: the same call on a fresh, equal operand gives a different result after other calls")
+        if idx % 40 == 39:
+            recheck()
         ctx.sample({"call": describe(c), "stream": c["stream"], "box_lr": case_json(c)["box_lr"], "impl": pbx.js(impl) if impl[0] in ("ok", "err") else list(impl)})
+    for _, c2, first in pending:
+        ctx.bump("evaluated-twice")
+        again = run_impl(c2)
+        if repr(again) != repr(first):
+            ctx.fail({**features(c2), "check": "not-reproducible", "symptom": "state-carried"}, case_json(c2, again, full=True),
+                     f"{describe_full(c2)}: the same call on a fresh, equal operand gives a different result after other calls")
+    recheck(final=True)
 
 
 def replay(obj):
